@@ -543,6 +543,7 @@ func runC13(c *Ctx) {
 		})
 	}
 	c.floor("IO-FLOW", 100)
+	c.useBeforeCheck(a)
 
 	// ---- sticky rule
 	c.stickyRule(scannerT)
@@ -867,4 +868,93 @@ func (c *Ctx) registrationLast() {
 	}
 	c.check(iCS >= 0 && iDF > iCS && iEnd >= 0 && iDF > iEnd, "IO-REGISTER", "font template", "definefont follows the CharStrings block", token.NoPos, "definefont is the last registration step of the written program",
 		"the font program template calls definefont before all charstrings are written: a truncated file could register an incomplete font")
+}
+
+// useBeforeCheck: the data result of an I/O call steers control only after
+// its error has been found nil.  (Byte counts are exempt: they are valid
+// together with an error.)
+func (c *Ctx) useBeforeCheck(a *ioAnalysis) {
+	n := 0
+	for _, f := range c.modFuncs {
+		fname := c.fname(f)
+		eachInstr(f, func(ins ssa.Instruction) {
+			call, ok := ins.(*ssa.Call)
+			if !ok {
+				return
+			}
+			desc, isIO := a.ioCall(call)
+			if !isIO || call.Common().Signature().Results().Len() != 2 {
+				return
+			}
+			res := call.Common().Signature().Results()
+			if b, ok := res.At(0).Type().Underlying().(*types.Basic); ok && b.Info()&types.IsInteger != 0 && b.Kind() != types.Uint8 {
+				return // a count
+			}
+			var v, e ssa.Value
+			for _, r := range *call.Referrers() {
+				if ex, ok := r.(*ssa.Extract); ok {
+					if ex.Index == 0 {
+						v = ex
+					} else {
+						e = ex
+					}
+				}
+			}
+			if v == nil || e == nil {
+				return
+			}
+			// branches that depend on v
+			seen := map[ssa.Value]bool{}
+			var ifs []*ssa.If
+			var walk func(x ssa.Value, depth int)
+			walk = func(x ssa.Value, depth int) {
+				if seen[x] || depth > 4 || x.Referrers() == nil {
+					return
+				}
+				seen[x] = true
+				for _, r := range *x.Referrers() {
+					switch r := r.(type) {
+					case *ssa.If:
+						ifs = append(ifs, r)
+					case *ssa.BinOp:
+						walk(r, depth+1)
+					case *ssa.UnOp:
+						if r.Op != token.MUL {
+							walk(r, depth+1)
+						}
+					case *ssa.Convert:
+						walk(r, depth+1)
+					case *ssa.ChangeType:
+						walk(r, depth+1)
+					case *ssa.Call:
+						if sc := r.Common().StaticCallee(); sc != nil && sc.Signature.Results().Len() == 1 {
+							if bt, ok := sc.Signature.Results().At(0).Type().Underlying().(*types.Basic); ok && bt.Kind() == types.Bool {
+								walk(r, depth+1)
+							}
+						}
+					}
+				}
+			}
+			walk(v, 0)
+			if len(ifs) == 0 {
+				return
+			}
+			n++
+			for _, ifi := range ifs {
+				checked := false
+				for _, cd := range domConds(ifi.Block()) {
+					if m, ok := asCmp(cd); ok && m.op == token.EQL && (m.x == e && isNilConst(m.y) || m.y == e && isNilConst(m.x)) {
+						checked = true
+					}
+				}
+				if !checked {
+					c.fail("IO-USEBEFORECHECK", fname, "data of "+desc+" steers control only after its error was found nil", ifi.Pos(),
+						"the value returned by "+desc+" is tested at "+c.pos(ifi.Pos())+" before (or without) its error being checked: on a read fault the zero value is taken for input (e.g. for white space) and the fault is never seen")
+					return
+				}
+			}
+			c.ok("IO-USEBEFORECHECK", fname, "data of "+desc+" steers control only after its error was found nil", call.Pos(), fmt.Sprintf("%d branch(es) on the value, all under err == nil", len(ifs)), "")
+		})
+	}
+	c.floor("IO-USEBEFORECHECK", 8)
 }
